@@ -136,9 +136,17 @@ def distribution_cost(
 
     comm = 0
     agt_names = [a.name for a in agentsdef]
+    counted = set()
     for l in computation_graph.links:
         # As we support hypergraph, we may have more than 2 ends to a link
         for c1, c2 in combinations(l.nodes, 2):
+            # The communication cost is defined between two computations:
+            # when they share several links, msg_load already accounts for
+            # all of them and the pair must only be counted once (as in the
+            # objective of the ILP).
+            if (c1, c2) in counted:
+                continue
+            counted.add((c1, c2))
             a1 = distribution.agent_for(c1)
             a2 = distribution.agent_for(c2)
             comm += route(a1, a2) * msg_load(c1, c2)
